@@ -16,6 +16,12 @@ After every step of every history the driver compares
     pg.to_json(x).
 A failing step is recorded and the symbolic side is re-synchronised from the
 reference so that the rest of the history is still exercised.
+
+Contents are compared by repr, so elements that compare equal but can be told
+apart (1 / 1.0 / True, records with equal sort keys, NaN objects) pin down
+*which* element an order- or equality-sensitive operation moved or found:
+drv_list_ties covers sort/sorted/min/max (every key function x every form of
+`reverse`) and remove/index/count/in on such elements.
 """
 import itertools
 
@@ -102,7 +108,7 @@ class Op:
 
 
 _WITNESS_HEAD = '''import pyglove as pg
-M=pg.MISSING_VALUE;Ins=pg.Insertion
+M=pg.MISSING_VALUE;Ins=pg.Insertion;nan=float('nan')
 def N(v):
  if isinstance(v,dict):return {k:N(v[k]) for k in list(v)}
  if isinstance(v,(list,tuple)):return (tuple if isinstance(v,tuple) else list)(N(e) for e in v)
@@ -169,7 +175,7 @@ def _raw_equal(x, r, kind):
   return _run(_LIST_RAW if kind == 'List' else _DICT_RAW, x, r)[0] == ('ok', 'True')
 
 
-def _observe(x, r, kind, light=False):
+def _observe(x, r, kind, light=False, names=None):
   """Returns None or (where, obs-name, src, got, want)."""
   if not _raw_equal(x, r, kind):
     src = 'list(list.__iter__(x))' if kind == 'List' else 'list(dict.items(x))'
@@ -179,6 +185,8 @@ def _observe(x, r, kind, light=False):
   if light:
     return None
   for name, src, ref_src in (_LIST_OBS if kind == 'List' else _DICT_OBS):
+    if names is not None and name not in names:
+      continue
     got, _ = _run(src, x, r)
     want, _ = _run(ref_src or src, N(r), r)
     if got != want:
@@ -197,8 +205,9 @@ def _copy_plain(r):
 class Session:
   """Drives one symbolic container and its reference through a history."""
 
-  def __init__(self, rec, kind, init, full_reads=False, resync_on_fail=True):
+  def __init__(self, rec, kind, init, full_reads=False, resync_on_fail=True, obs=None):
     self.rec, self.kind, self.full_reads = rec, kind, full_reads
+    self.obs = obs                  # None: every read API; else the names to use
     self.resync_on_fail = resync_on_fail
     self.r = _copy_plain(init)
     self.x = _fresh(kind, init)
@@ -253,7 +262,7 @@ class Session:
                _witness(kind, self.base, self.prefix, op.src, f'assert isinstance(x, pg.{kind}), type(x)'))
       self.resync()
       return False
-    bad = _observe(self.x, self.r, kind, light=not op.mut and not self.full_reads)
+    bad = _observe(self.x, self.r, kind, light=not op.mut and not self.full_reads, names=self.obs)
     if bad is not None:
       where, name, osrc, ogot, owant = bad
       # Contents differ -> blame the operation; contents equal but a read API
@@ -507,11 +516,15 @@ def list_write_ops(lo, hi, steps, max_new, vals=None, slices=True, multi=True):
   ops += [
       Op('x.sort(key=repr)', 'list.sort/key'),
       Op('x.sort(key=repr, reverse=True)', 'list.sort/key+reverse'),
-      Op('x.sort()', lambda r: 'list.sort/' + ('plain' if len({type(e) for e in r}) <= 1 and not any(isinstance(e, (dict, type(None))) for e in r) else 'incomparable')),
-      Op('x.sort(reverse=True)', lambda r: 'list.sort/' + ('reverse' if len({type(e) for e in r}) <= 1 and not any(isinstance(e, (dict, type(None))) for e in r) else 'incomparable')),
+      sort_op(None, None, 'asc'),
+      sort_op(None, 'True', 'desc'),
       Op('x.reverse()', 'list.reverse'),
       Op('x.clear()', 'list.clear'),
   ]
+  # sorts whose keys tie on distinguishable elements (stability, both directions)
+  for key_src in _ANY_KEYS:
+    for rev_src, label in ((None, 'asc'), ('True', 'desc')):
+      ops.append(sort_op(key_src, rev_src, label))
   # rebind: single path
   for i in range(lo, hi + 1):
     for k in 'rid':
@@ -580,6 +593,7 @@ def _map_ints(r):
 def _list_inits(max_len):
   inits = [list(range(n)) for n in range(max_len + 1)]
   inits += [[1, 0, 1], ['b', 'a'], [0, [1, [2]], {'k': 0}, None, 'v'], [[0], [0]], [None, None], [2, 1, 0, 1, 2][:max_len + 1]]
+  inits += [[1, 1.0, True, 0.0]]    # equal but distinguishable elements
   return inits
 
 
@@ -651,6 +665,7 @@ def _hist_alphabet(size):
       Op('x + [1]', 'list.add/list', mut=False),
       Op('x * 2', 'list.mul/k>1', mut=False),
   ]
+  ops += [sort_op(_ANY_KEYS[0], 'True', 'desc'), sort_op(_ANY_KEYS[1], None, 'asc')]
   for ups in ([(0, 'r', 50)], [(1, 'i', 51)], [(0, 'd', 0)], [(9, 'r', 59)], [(-1, 'r', 58)],
               [(0, 'i', 60), (1, 'd', 0)], [(0, 'd', 0), (2, 'r', 62)], [(1, 'r', 61), (7, 'r', 67)],
               [(0, 'r', [1]), (1, 'i', {'a': 2}), (2, 'd', 0)]):
@@ -695,7 +710,7 @@ def drv_list_histories(tier, seed):
   """All short histories + seeded random long histories over the list API."""
   rec = Recorder(
       'C02', 'pg.List mutation histories vs list',
-      scope=('all histories of length <=2 over a 47-op alphabet from 3 initial lists; '
+      scope=(f'all histories of length <=2 over a {len(_hist_alphabet(0))}-op alphabet from 3 initial lists; '
              + ('all of length 3 over the first 30 ops; ' if tier != 'quick' else '')
              + 'seeded random histories of length <=12 over the full single-op alphabet incl. nested-path rebind; '
                'outcome and full state compared after every step'))
@@ -738,10 +753,237 @@ def drv_list_histories(tier, seed):
 
 
 # ---------------------------------------------------------------------------
+# Order-sensitive list operations on elements that *tie*: they compare equal
+# (1 == 1.0 == True) or have equal sort keys, yet can be told apart.  Python
+# pins the outcome: sort()/sorted() are stable in both directions (tied
+# elements keep their original relative order, also with reverse=True),
+# min()/max()/index()/remove() pick the first of several candidates.
+# ---------------------------------------------------------------------------
+
+# (source of the `reverse` argument or None for "not passed", direction label)
+_REV_FORMS = [(None, 'asc'), ('False', 'asc'), ('True', 'desc'),
+              ('0', 'asc-falsy-arg'), ('1', 'desc-truthy-arg')]
+
+
+def _distinct(a, b):
+  return repr(N(a)) != repr(N(b))
+
+
+def _tie_class(r, kf):
+  """Input class of sorting `r` under key function `kf` (None: no key)."""
+  try:
+    ks = [kf(e) for e in r] if kf is not None else list(r)
+  except Exception:  # pylint: disable=broad-except
+    return 'key-raises'
+  tie = False
+  try:
+    for i in range(len(ks)):
+      for j in range(i + 1, len(ks)):
+        lt, gt = ks[i] < ks[j], ks[j] < ks[i]
+        if not lt and not gt and _distinct(r[i], r[j]):
+          tie = True
+  except Exception:  # pylint: disable=broad-except
+    return 'incomparable'
+  return 'distinguishable-ties' if tie else 'no-ties'
+
+
+def _key_fn(key_src):
+  return eval(key_src, dict(_ENV)) if key_src is not None else None  # pylint: disable=eval-used
+
+
+# Key functions defined on every element (nested containers are symbolic on one
+# side, so keys go through N and never look at List-vs-list); they tie a lot.
+_ANY_KEYS = ['lambda e: len(str(N(e)))', 'lambda e: isinstance(e, (list, dict))', 'lambda e: 0']
+
+
+def _sort_args(key_src, rev_src):
+  return ', '.join(([f'key={key_src}'] if key_src is not None else [])
+                   + ([f'reverse={rev_src}'] if rev_src is not None else []))
+
+
+def _sort_cid(opname, key_src, rev_label):
+  kf = _key_fn(key_src)
+  kk = 'no-key' if kf is None else 'key'
+  return lambda r: f'{opname}/{kk}/{rev_label}/{_tie_class(r, kf)}'
+
+
+def sort_op(key_src, rev_src, rev_label):
+  return Op(f'x.sort({_sort_args(key_src, rev_src)})', _sort_cid('list.sort', key_src, rev_label))
+
+
+def tie_sort_ops(keys, rev_forms, reads=True):
+  """sort / sorted / min / max for every key function x every `reverse` form."""
+  ops = []
+  for key_src in keys:
+    for rev_src, label in rev_forms:
+      ops.append(sort_op(key_src, rev_src, label))
+      if reads and rev_src in (None, 'True'):
+        a = _sort_args(key_src, rev_src)
+        ops.append(Op(f'sorted(x{", " + a if a else ""})', _sort_cid('list.sorted-builtin', key_src, label), mut=False))
+    if reads:
+      a = _sort_args(key_src, None)
+      for fn in ('min', 'max'):
+        ops.append(Op(f'{fn}(x{", " + a if a else ""})',
+                      lambda r, kf=_key_fn(key_src), fn=fn: (
+                          f'list.{fn}-builtin/' + ('no-key' if kf is None else 'key') + '/'
+                          + ('empty' if not r else _tie_class(r, kf))), mut=False))
+  return ops
+
+
+def _eq_cls(v):
+  """present / absent / equal-but-distinct (an element equal to v that is not v's twin)."""
+  def f(r):
+    m = [e for e in r if e == v]
+    if not m:
+      return 'absent'
+    return 'equal-but-distinct' if any(_distinct(e, v) for e in m) else 'present'
+  return f
+
+
+def tie_search_ops(probes, n, grid_probes=1):
+  """Value-searching operations: which of several equal elements is found."""
+  ops = []
+  for v in probes:
+    c = _eq_cls(v)
+    ops += [
+        Op(f'x.remove({v!r})', lambda r, c=c: f'list.remove/{c(r)}'),
+        Op(f'x.index({v!r})', lambda r, c=c: f'list.index/{c(r)}', mut=False),
+        Op(f'x.count({v!r})', lambda r, c=c: f'list.count/{c(r)}', mut=False),
+        Op(f'{v!r} in x', lambda r, c=c: f'list.contains/{c(r)}', mut=False),
+        Op(f'x.pop(x.index({v!r}))', lambda r, c=c: f'list.pop-index-of/{c(r)}'),
+    ]
+  # The probe is an element taken from the container itself: Python matches by
+  # identity first, so this must succeed even for an element with e != e (NaN).
+  def own(i):
+    def f(r):
+      if not -len(r) <= i < len(r):
+        return 'index-out-of-range'
+      return 'element-not-equal-to-itself' if r[i] != r[i] else _eq_cls(r[i])(r)
+    return f
+  for i in (0, 1, -1):
+    c = own(i)
+    ops += [
+        Op(f'x.remove(x[{i}])', lambda r, c=c: f'list.remove-own-element/{c(r)}'),
+        Op(f'x.index(x[{i}])', lambda r, c=c: f'list.index-own-element/{c(r)}', mut=False),
+        Op(f'x.count(x[{i}])', lambda r, c=c: f'list.count-own-element/{c(r)}', mut=False),
+        Op(f'x[{i}] in x', lambda r, c=c: f'list.contains-own-element/{c(r)}', mut=False),
+    ]
+  for v in probes[:grid_probes]:
+    for s in range(-n - 1, n + 2):
+      ops.append(Op(f'x.index({v!r}, {s})',
+                    lambda r, v=v, s=s: 'list.index-start/' + _eq_cls(v)(r[s:]), mut=False))
+      for e in range(-n - 1, n + 2):
+        ops.append(Op(f'x.index({v!r}, {s}, {e})',
+                      lambda r, v=v, s=s, e=e: 'list.index-start-stop/' + _eq_cls(v)(r[s:e]), mut=False))
+  return ops
+
+
+_NAN_A, _NAN_B = float('nan'), float('nan')
+
+# Element pools whose members tie under `==` and/or under the listed keys.
+_TIE_POOLS = {
+    'numeric': dict(
+        elems=[1, 1.0, True, 0, 0.0, -1, 2, -1.0, False, -2, 2.0],
+        keys=[None, 'None', 'abs', 'lambda e: 0', 'lambda e: -e', 'lambda e: e % 2',
+              'lambda e: type(e).__name__', 'lambda e: 1 // e'],
+        probes=[1, 1.0, True, 0, False, -1.0, 7]),
+    'str': dict(
+        elems=['c', 'bb', 'aa', 'd', 'B', 'eee', '', 'b', 'Bb'],
+        keys=[None, 'len', 'str.lower', 'lambda e: 0', 'lambda e: e[:1]', 'lambda e: -len(e)',
+              'lambda e: e[0]'],
+        probes=['c', 'bb', 'b', '', 'zz']),
+    'tuple': dict(
+        elems=[(1, 'a'), (1, 'b'), (0, 'c'), (1.0, 'a'), (0,), (True, 'b'), (2, 'a')],
+        keys=[None, 'lambda e: e[0]', 'len', 'lambda e: 0', 'lambda e: e[-1]', 'lambda e: e[1]'],
+        probes=[(1, 'a'), (1.0, 'a'), (True, 'b'), (0,), (9,)]),
+    'record': dict(   # nested containers sorted by one of their entries
+        elems=[{'k': 1, 'v': 'first'}, {'k': 2, 'v': 'x'}, {'k': 1, 'v': 'second'}, {'k': 1.0, 'v': 'first'},
+               {'k': 0, 'v': 'x', 'w': None}, {'k': 2.0, 'v': 'third'}],
+        keys=[None, "lambda e: e['k']", 'len', "lambda e: e['v'][0]", 'lambda e: 0', "lambda e: -e['k']",
+              "lambda e: e['w']", "lambda e: e.get('w', 5)", 'lambda e: list(e)'],
+        probes=[{'k': 1, 'v': 'first'}, {'k': 1.0, 'v': 'first'}, {'k': 2, 'v': 'third'}, {'k': 1}]),
+    'nested-list': dict(
+        elems=[[1, 'a'], [1.0, 'b'], [0], [1.0, 'a'], [True, 'a', None], [2, 'b']],
+        keys=[None, 'lambda e: e[0]', 'len', 'lambda e: 0', 'lambda e: e[1]', 'lambda e: e[-1:] == ["a"]'],
+        probes=[[1, 'a'], [1.0, 'a'], [True, 'b'], [0.0], [9]]),
+    'nan': dict(      # two distinct NaN objects: e != e, found only by identity
+        elems=[_NAN_A, 1.0, _NAN_B, 0, -1, 1],
+        keys=[None, 'lambda e: 0', 'lambda e: e != e', 'lambda e: -e', 'abs'],
+        probes=[1, 0.0, 7]),
+    'mixed': dict(
+        elems=[1, 'a', None, [1], {'k': 1}, 1.0, 'b', (1,), True, [1.0]],
+        # (nested containers are symbolic on one side: keys must not depend on List-vs-list)
+        keys=[None, 'lambda e: type(e).__name__.lower()', 'lambda e: 0', 'lambda e: len(str(N(e)))',
+              'lambda e: isinstance(e, (int, float))', 'lambda e: e == 1', 'lambda e: e',
+              'lambda e: isinstance(e, (list, dict))'],
+        probes=[1, True, [1], [True], None, {'k': 1.0}, (1.0,)]),
+}
+
+_TIE_OBS = {'list(x)', 'len', 'getitem+', 'eq', 'to_json'}
+_TIE_OBS_TUPLES = _TIE_OBS - {'to_json'}   # JSON has no tuples: nothing to compare a tuple's JSON form with
+
+
+def _run_ops(rec, init, ops, obs, key_of):
+  """Each mutator on a fresh container; the reads share one (checked intact after each)."""
+  reader = Session(rec, 'List', init, obs=obs)
+  for op in ops:
+    s = reader if not op.mut else Session(rec, 'List', init, resync_on_fail=False, obs=obs)
+    s.step(op, key_of(op))
+
+
+def drv_list_ties(tier, seed):
+  """Sorting and searching lists whose elements tie but are distinguishable."""
+  quick = tier == 'quick'
+  base_n, max_k = (4, 3) if quick else (5, 4)
+  n_rand = 30 if quick else 600
+  rec = Recorder(
+      'C02', 'pg.List order-sensitive operations on tied (equal / equal-key) elements vs list',
+      scope=(f'{len(_TIE_POOLS)} element pools (numbers 1/1.0/True.., strings, tuples, nested dicts, nested lists, NaN objects, mixed); '
+             f'initial lists: every arrangement of <={max_k} of the first {base_n} pool elements + {n_rand} seeded random '
+             f'lists of length 4..7 per pool; sort/sorted with every key function of the pool (none, key=None, ties, '
+             f'all-tie, raising, incomparable keys) x reverse in (absent, False, True, 0, 1); min/max; '
+             f'remove/index/count/in/pop(index()) with probes equal to several distinguishable elements and with the '
+             f"container's own elements as probes; "
+             f'index(v, start[, stop]) over start, stop in [-n-1, n+1] (every 4th longest list); contents compared by repr (1 != 1.0 != True)'))
+  rnd = rng(seed, 'c02-list-ties')
+  for pname, pool in _TIE_POOLS.items():
+    elems, keys, probes = pool['elems'], pool['keys'], pool['probes']
+    obs = _TIE_OBS_TUPLES if any(isinstance(e, tuple) for e in elems) else _TIE_OBS
+    base = elems[:base_n]
+    inits = [[]] + [[e] for e in base[:2]]
+    for k in range(2, max_k + 1):
+      inits += [list(p) for p in itertools.permutations(base, k)]
+    inits.append([base[0], base[0], base[1], base[0]])       # identical twins next to ties
+    # every key x reverse in (absent, False, True); the int forms 0 / 1 with the first three keys
+    sort_all = tie_sort_ops(keys, _REV_FORMS[:3], reads=True) + tie_sort_ops(keys[:3], _REV_FORMS[3:], reads=False)
+    for ii, init in enumerate(inits):
+      ops = sort_all + tie_search_ops(probes, len(init), grid_probes=1 if len(init) == max_k and ii % 4 == 0 else 0)
+      _run_ops(rec, init, ops, obs, lambda op: (pname, init, op.src))
+    sort_some = tie_sort_ops(keys, [(None, 'asc'), ('True', 'desc')], reads=False)
+    for h in range(n_rand):
+      init = [rnd.choice(elems) for _ in range(rnd.randint(4, 7))]
+      _run_ops(rec, init, sort_some + tie_search_ops(probes, len(init), grid_probes=0), obs,
+               lambda op: (pname, 'rand', seed, h, op.src))
+  # Argument-form classes of sort().
+  for init in ([], [2, 1], ['b', 'a', 'c']):
+    for op in (Op('x.sort(len)', 'list.sort/positional-arg'),
+               Op('x.sort(None, True)', 'list.sort/positional-arg'),
+               Op('x.sort(key=5)', 'list.sort/non-callable-key'),
+               Op('x.sort(cmp=None)', 'list.sort/unknown-kwarg'),
+               Op('x.sort(key=lambda e: x.append(0) or 0)', 'list.sort/key-mutates-list'),
+               Op('x.sort(key=lambda e: x.clear() or 0, reverse=True)', 'list.sort/key-mutates-list')):
+      s = Session(rec, 'List', init, resync_on_fail=False, obs=_TIE_OBS)
+      s.step(op, ('args', init, op.src))
+  return rec.result()
+
+
+# ---------------------------------------------------------------------------
 # Dict operations
 # ---------------------------------------------------------------------------
 
 def _kcls(k):
+  if isinstance(k, bool):
+    return 'bool-key'      # an int: True == 1 and False == 0 address the same entry
   if isinstance(k, int):
     return 'int-key'
   if k == '' or any(c in k for c in '.[]'):
@@ -749,7 +991,7 @@ def _kcls(k):
   return 'str-key'
 
 
-_DKEYS = ['a', 'b', 'new', 0, 1, -1, '0', 'a.b', 'a.z', '[0]', 'a[0]', '', 'x y', '$']
+_DKEYS = ['a', 'b', 'new', 0, 1, -1, '0', 'a.b', 'a.z', '[0]', 'a[0]', '', 'x y', '$', True, False]
 _DVALS = [5, 'v', None, [6, [7]], {'k': 8}, {'k': {'j': [1]}}]
 
 
@@ -902,6 +1144,7 @@ _DICT_INITS = [
     {}, {'a': 1}, {'a': 1, 'b': 2, 0: 'z'}, {0: 'i', '0': 's', -1: 'n'},
     {'b': 1, 'a': {'x': [1, 2], 'w': None}}, {'a.b': 1, 'a': {'b': 2}, '': 3, '[0]': 4},
     {'a': None, 'new': [1, {'k': 2}]},
+    {'a': _NAN_A, 'b': [_NAN_A, 1.0], 1: True},     # values with v != v; 1 / 1.0 / True
 ]
 
 
@@ -973,7 +1216,7 @@ def drv_dict_histories(tier, seed):
         for j, oi in enumerate(hist):
           s.step(alpha[oi], (init, hist[:j + 1]))
   rnd = rng(seed, 'c02-dict-hist')
-  big = dict_ops(keys=['a', 'b', 0, 1, 'a.b', '[0]', ''], vals=[5, None, [6, [7]], {'k': {'j': [1]}}])
+  big = dict_ops(keys=['a', 'b', 0, 1, 'a.b', '[0]', '', True], vals=[5, None, [6, [7]], {'k': {'j': [1]}}])
   deep = _dict_deep_ops()
   n_hist = 700 if tier == 'quick' else 12000
   for h in range(n_hist):
@@ -990,7 +1233,7 @@ def drv_dict_histories(tier, seed):
   return rec.result()
 
 
-DRIVERS = [drv_list_single, drv_list_histories, drv_dict_single, drv_dict_histories]
+DRIVERS = [drv_list_single, drv_list_histories, drv_list_ties, drv_dict_single, drv_dict_histories]
 
 
 def replay(rec):
